@@ -203,6 +203,7 @@ class SVal:
         self._ids = 0
         self._sites = {}
         self._seq = 0
+        self.seq_of = {}      # id(return / raise statement) -> sequence number
         self.loops = {}       # id -> (node, iter term)
         self.loop_updates = {}  # id -> {name: term after one iteration}
         self._wsets = None
@@ -351,12 +352,16 @@ class SVal:
             v = self.ev(st.value, env, pc) if st.value is not None else NONE
             self.returns.append((norm_pc(pc), v, st))
             self.exit_envs.append((norm_pc(pc), dict(env)))
+            self._seq += 1
+            self.seq_of[id(st)] = self._seq
             return None
         if isinstance(st, ast.Raise):
             v = self.ev(st.exc, env, pc) if st.exc is not None else ('reraise',)
             if st.cause is not None:
                 self.ev(st.cause, env, pc)
             self.raises.append((norm_pc(pc), v, st))
+            self._seq += 1
+            self.seq_of[id(st)] = self._seq
             return None
         if isinstance(st, (ast.Break, ast.Continue)):
             env.setdefault(('exits',), []).append((type(st).__name__, norm_pc(pc)))
